@@ -8,6 +8,8 @@ func init() {
 	Registry["C03"] = C03
 	Registry["C04"] = C04
 	Registry["C05"] = C05
+	Registry["C06"] = C06
+	Registry["C12"] = C12
 	Registry["C16"] = C16
 	Registry["C17"] = C17
 }
